@@ -24,12 +24,12 @@ pub uninterp spec fn now_spec() -> i64;
 pub fn clock_get() -> (r: Result<Clock, E>) ensures r.is_ok() ==> r.unwrap().unix_timestamp == now_spec() { unimplemented!() }
 
 //@struct programs/competition/src/states.rs :: pub struct Competition :: bump, authority, start_time, end_time, leaderboard, volume_threshold, extension_duration, extension_cap, extension_triggerer, only_count_increase, volume_merge_window
-pub struct Competition { pub start_time: i64, pub end_time: i64, pub leaderboard: Vec<LeaderEntry>, pub volume_threshold: u128, pub extension_duration: i64, pub extension_cap: i64, pub extension_triggerer: Option<Pubkey> }
+pub struct Competition { pub start_time: i64, pub end_time: i64, pub leaderboard: Vec<LeaderEntry>, pub volume_threshold: u128, pub extension_duration: i64, pub extension_cap: i64, pub extension_triggerer: Option<Pubkey>, pub only_count_increase: bool, pub volume_merge_window: i64 }
 //@struct programs/competition/src/states.rs :: pub struct LeaderEntry :: address, volume
 #[derive(Clone, Copy)]
 pub struct LeaderEntry { pub address: Pubkey, pub volume: u128 }
 //@struct programs/competition/src/states.rs :: pub struct Participant :: bump, competition, trader, volume, last_updated_at, merged_volume
-pub struct Participant { pub trader: Pubkey, pub volume: u128 }
+pub struct Participant { pub trader: Pubkey, pub volume: u128, pub last_updated_at: i64, pub merged_volume: u128 }
 
 /// wf(Competition): what initialize_competition enforces (start > now >= 0, end > start, duration > 0, cap >= duration)
 pub open spec fn comp_wf(c: Competition) -> bool { c.end_time >= 0 && c.extension_duration > 0 && c.extension_cap >= c.extension_duration }
@@ -51,6 +51,8 @@ pub fn extend_competition_time(comp: &mut Competition, part: &Participant, volum
         r.is_err() ==> *final(comp) == *old(comp),
         // the invariant assumed above is preserved (so the bound holds for every later extension too)
         comp_wf(*final(comp)),
+        // only the end time and the recorded triggerer change
+        *final(comp) == (Competition { end_time: final(comp).end_time, extension_triggerer: final(comp).extension_triggerer, ..*old(comp) }),
 //@body
 
 // ---- leaderboard -------------------------------------------------------------------------------------------
@@ -342,6 +344,8 @@ pub fn update_leaderboard(comp: &mut Competition, part: &Participant)
         step_post(old(comp).leaderboard@, final(comp).leaderboard@, part.trader, part.volume),
         // nothing else of the competition changes
         final(comp).end_time == old(comp).end_time && final(comp).extension_triggerer == old(comp).extension_triggerer,
+        final(comp).start_time == old(comp).start_time && final(comp).volume_threshold == old(comp).volume_threshold && final(comp).extension_duration == old(comp).extension_duration
+            && final(comp).extension_cap == old(comp).extension_cap && final(comp).only_count_increase == old(comp).only_count_increase && final(comp).volume_merge_window == old(comp).volume_merge_window,
 //@body
 
 /// History step for everybody else: a participant who was left off (and did not trade) stays left off, still with no more
